@@ -16,7 +16,7 @@ pub fn def() -> PropDef {
         job_level,
         run_job,
         replay,
-        rule: "programs: every action-menu config (U1), the curated feature-interaction configs (U3) and every parsing seed of C03 with <= 60 nodes that the parser accepts. Rewrites applied at EVERY applicable site (bound 1) and, for programs <= 60 nodes (thorough: 90), every PAIR of sites with the second rewrite applied to the result of the first (bound 2): (R1) an action in a deflayer -> @alias with the defalias placed before first use; (R2) an atom or list argument inside an action -> $var (defvar at the top); (R3) any action or argument -> (t! tN) of a zero-parameter deftemplate; (R3p) -> (t! tN <node>) of the identity template (deftemplate tN (p) $p), which nests expansions inside template arguments at bound 2; (R4) a top-level form -> expansion of a template whose body is (if-equal x x <form>); (R5) a top-level form -> an included file; (R6) a top-level form -> (platform (linux) <form>); (R7) a deflayer -> the equivalent deflayermap listing every defsrc key. Oracle: accepted iff accepted; equal renderings of every layer cell of every mapped key and virtual key, key_outputs, mapped keys, overrides, sequence trie entries (hook H4), virtual key names, layer names, zippy dictionary and switch timing; plus lock-step behaviour: both configs run on ALL physically consistent histories of D steps over press/release of a,b,c + tick 1 + tick 6, outputs identical (every rewrite at bound 1 on the generated universes; a deterministic 1-in-25 subset at bound 2 in quick, 1-in-5 in thorough; D=3 quick, 4 thorough). programs = rewritten programs compared; disagreements_checked = comparisons made.",
+        rule: "programs: every action-menu config (U1), the curated feature-interaction configs (U3) and every parsing seed of C03 with <= 60 nodes that the parser accepts. Rewrites applied at EVERY applicable site (bound 1) and, for programs <= 60 nodes (thorough: 90), every PAIR of sites with the second rewrite applied to the result of the first (bound 2): (R1) an action in a deflayer -> @alias with the defalias placed before first use; (R2) an atom or list argument inside an action -> $var (defvar at the top); (R3) any action or argument -> (t! tN) of a zero-parameter deftemplate; (R3p) -> (t! tN <node>) of the identity template (deftemplate tN (p) $p), which nests expansions inside template arguments at bound 2; (R4) a top-level form -> expansion of a template whose body is (if-equal x x <form>); (R5) a top-level form -> an included file; (R6) a top-level form -> (platform (linux) <form>); (R7) a deflayer -> the equivalent deflayermap listing every defsrc key; (R7w) the same plus a `_` wildcard entry, written first or last, which with every key listed explicitly applies to none. Oracle: accepted iff accepted; equal renderings of every layer cell of every mapped key and virtual key, key_outputs, mapped keys, overrides, sequence trie entries (hook H4), virtual key names, layer names, zippy dictionary and switch timing; plus lock-step behaviour: both configs run on ALL physically consistent histories of D steps over press/release of a,b,c + tick 1 + tick 6, outputs identical (every rewrite at bound 1 on the generated universes; a deterministic 1-in-25 subset at bound 2 in quick, 1-in-5 in thorough; D=3 quick, 4 thorough). programs = rewritten programs compared; disagreements_checked = comparisons made.",
         assumptions: &["rewrites are applied only where config.adoc documents them as available (actions and their arguments inside deflayer; top-level forms other than defcfg/defsrc for include)", "behavioural comparison is bounded by D; table equality is complete"],
         required_level,
         min_outcomes: 3,
@@ -89,8 +89,10 @@ enum Rw {
     Include,
     Platform,
     LayerMap,
+    /// deflayermap listing every defsrc key AND a `_` wildcard entry (which then applies to no key)
+    LayerMapWild,
 }
-const RWS: [Rw; 8] = [Rw::Alias, Rw::Var, Rw::Template0, Rw::TemplateId, Rw::IfEqual, Rw::Include, Rw::Platform, Rw::LayerMap];
+const RWS: [Rw; 9] = [Rw::Alias, Rw::Var, Rw::Template0, Rw::TemplateId, Rw::IfEqual, Rw::Include, Rw::Platform, Rw::LayerMap, Rw::LayerMapWild];
 
 fn head_of<'a>(t: &'a str, nodes: &[Node], i: usize) -> &'a str {
     // first atom child of list node i
@@ -212,7 +214,7 @@ fn apply(t: &str, files: &Files, nodes: &[Node], ni: usize, rw: Rw, uid: usize) 
                 }
             }
         }
-        Rw::LayerMap => {
+        Rw::LayerMap | Rw::LayerMapWild => {
             if ni != top || top_head != "deflayer" {
                 return None;
             }
@@ -231,8 +233,16 @@ fn apply(t: &str, files: &Files, nodes: &[Node], ni: usize, rw: Rw, uid: usize) 
                 return None; // layer options (icons) — not rewritten
             }
             let mut s = format!("(deflayermap ({lname})");
+            // the wildcard `_` stands for the defsrc keys that are NOT listed explicitly: with every key
+            // listed (an explicit `_` action included) it applies to none, wherever it is written
+            if rw == Rw::LayerMapWild && uid % 2 == 0 {
+                s += " _ XX";
+            }
             for (k, a) in src_keys.iter().zip(kids[2..].iter()) {
                 s += &format!(" {k} {}", &t[a.start..a.end]);
+            }
+            if rw == Rw::LayerMapWild && uid % 2 == 1 {
+                s += " _ XX";
             }
             s += ")";
             Some((format!("{}{}{}", &t[..n.start], s, &t[n.end..]), files.clone()))
